@@ -261,6 +261,15 @@ def quotient_build(seed, tier):
     add = [x for x in cand if r.random() < 0.25]
     if r.random() < 0.03:
         add.append("stranger")
+    if r.random() < 0.12:
+        # the dividend assumes a hair less than the divisor on a shared input that stays an input of the quotient: whether
+        # "the dividend's assumptions imply the divisor's" is decided by a containment test with a tolerance
+        mode = "hair"
+        delta = r.choice([1.5e-6, 5e-7, 2.5e-7, 0.0, -1e-6])
+        bound = float(r.choice([1, 2, 5]))
+        c = type(c)(g.PTL([g.PT({g.Var("i0"): 1.0}, bound + delta)]), g.PTL([g.PT({g.Var("o0"): 1.0}, 5.0)]), [g.Var("i0")], [g.Var("o0")])
+        c1 = type(c)(g.PTL([g.PT({g.Var("i0"): 1.0}, bound)]), g.PTL([g.PT({g.Var("m0"): 1.0}, 0.0)]), [g.Var("i0")], [g.Var("m0")])
+        add = ["i0"]
     return {"op": "quotient", "mode": mode, "c": contract_data(c), "c1": contract_data(c1), "add": add, "simplify": r.random() < 0.5, "order": r.choice(ORDERS)}
 
 
@@ -430,7 +439,7 @@ def refines_build(seed, tier):
     g = Gen(seed)
     r = g.r
     names = ["x", "y", "z", "w"][: r.randint(1, 4)]
-    fam = r.choice(["self", "sublist", "weakening", "farkas", "duplicate", "separated", "unrelated", "empty_left", "empty_right", "equal_bound", "unbounded"])
+    fam = r.choice(["self", "sublist", "weakening", "farkas", "duplicate", "separated", "unrelated", "empty_left", "empty_right", "equal_bound", "unbounded", "variable_free"])
     base = [g.term(names, 1, 3) for _ in range(r.randint(1, 4))]
     if fam in ("self", "sublist", "weakening", "farkas", "duplicate", "equal_bound") and r.random() < 0.7:
         for v in names:
@@ -470,6 +479,23 @@ def refines_build(seed, tier):
     elif fam == "unbounded":
         left = [g.term(names, 1, 2)]
         right, expect = [g.term(names, 1, 2)], None
+    elif fam == "variable_free":
+        # constraints whose coefficients cancelled: 0 <= c holds everywhere (c >= 0) or nowhere (c < 0)
+        taut, contra = g.PT({}, float(r.choice([0, 1, 2]))), g.PT({}, -float(r.choice([1, 2])))
+        shape = r.choice(["taut_right", "taut_both", "taut_left", "contra_left", "contra_right", "only_taut"])
+        if shape == "taut_right":
+            left, right = base, [taut] + ([base[0].copy()] if r.random() < 0.5 else [])
+        elif shape == "taut_both":
+            left, right = [taut] + base, [taut.copy()] + [t.copy() for t in base[:1]]
+        elif shape == "taut_left":
+            left, right = [taut] + base, [g.term(names, 1, 2)]
+        elif shape == "contra_left":
+            left, right = [contra] + base, [g.term(names, 1, 2)]
+        elif shape == "contra_right":
+            left, right = base, [contra] + base[:1]
+        else:
+            left, right = ([taut] if r.random() < 0.5 else []), [taut.copy()]
+        expect = None
     else:
         right, expect = [g.term(names, 1, 3) for _ in range(r.randint(1, 3))], None
     return {"op": "refines", "family": fam, "left": tl_data(left), "right": tl_data(right), "expect": expect}
